@@ -35,6 +35,17 @@ CONFIGS = {
                                                                [OPT + "repartition_sorts", "false"],
                                                                [OPT + "enable_round_robin_repartition", "false"]]),
     # Utf8View strings, sort-merge joins, no sorted declaration
+    # Parquet files (one per table partition) registered as listing tables: with chunk statistics, with a declared
+    # file sort order, without statistics, with filter pushdown into the scan
+    "Q1": dict(partitions=2, batch_rows=0, source="parquet", settings=[[TP, "1"]]),
+    "Q4": dict(partitions=3, batch_rows=0, source="parquet_page", sorted=1, row_group=4,
+               settings=[[TP, "4"], [BS, "3"], [OPT + "prefer_existing_sort", "true"],
+                         ["datafusion.execution.enable_file_stream_work_stealing", "false"]]),
+    "N2": dict(partitions=2, batch_rows=0, source="parquet_nostats", settings=[[TP, "2"]]),
+    "F4": dict(partitions=2, batch_rows=0, source="parquet", row_group=3,
+               settings=[[TP, "4"], ["datafusion.execution.parquet.pushdown_filters", "true"],
+                         ["datafusion.execution.parquet.reorder_filters", "true"],
+                         ["datafusion.execution.enable_file_stream_work_stealing", "false"]]),
     "V4": dict(partitions=2, batch_rows=3, utf8view=True, settings=[[TP, "4"], [OPT + "prefer_hash_join", "false"],
                                                                     [OPT + "enable_topk_aggregation", "false"]]),
 }
@@ -180,7 +191,7 @@ def build_runs(ctx, n_tlc, n_big, configs, big_rows=14, tlc_rows=4, gens=None, c
 def record(ctx, lines, tag="rec"):
     inp, out = ctx.path(f"{tag}.in.ndjson"), ctx.path(f"{tag}.out.ndjson")
     write_ndjson(inp, lines)
-    summary, _ = run_harness(ctx, "vcontract", ["record", "--in", inp, "--out", out], timeout=3000)
+    summary, _ = run_harness(ctx, "vcontract", ["record", "--in", inp, "--out", out, "--dir", ctx.path("pq")], timeout=6000)
     return read_ndjson(out), summary
 
 
@@ -216,6 +227,8 @@ def slim(run, check):
                         for s in n["streams"]]
         nodes.append(m)
     out = {"id": run["id"], "nodes": nodes}
+    if check == "C29":
+        out["agg"] = run.get("agg", [])
     if check == "C30":
         out["logical"], out["root"] = run["logical"], run["root"]
     return out
@@ -378,6 +391,11 @@ def mutants(check, runs, rng, per_kind=3):
                         break
             elif check == "C29":
                 for si, st in enumerate(n["stats"]):
+                    of = [x for x in n["streams"] if st["p"] == -1 or x["p"] == st["p"]]
+                    if not (n["full"] and all(b["ok"] for x in n["streams"] for b in x["batches"])
+                            and len(of) == (n["np"] if st["p"] == -1 else 1)):
+                        continue
+                    obs = [r for x in of for r in _flat(x)]
                     if st["rows"]["x"] == 1 and n["full"]:
                         m = json.loads(json.dumps(n))
                         m["stats"][si]["rows"]["v"]["v"] += 1
@@ -387,7 +405,7 @@ def mutants(check, runs, rng, per_kind=3):
                             m = json.loads(json.dumps(n))
                             m["stats"][si]["cols"][ci]["nulls"]["v"]["v"] += 1
                             emit(run, ni, m, "nulls", "exact-nulls-off-by-one")
-                        if c["max"]["x"] == 1 and c["max"]["v"]["k"] == "i" and n["full"]:
+                        if c["max"]["x"] == 1 and c["max"]["v"]["k"] == "i" and any(r[ci]["k"] != "n" for r in obs):
                             m = json.loads(json.dumps(n))
                             m["stats"][si]["cols"][ci]["max"]["v"]["v"] += 1
                             emit(run, ni, m, "max", "exact-max-off-by-one")
@@ -420,6 +438,19 @@ def origin(run, node, check, kinds):
         node = kids[0]
 
 
+def origin_at(run, node, check, kinds, p):
+    """As `origin`, following violations about the same partition scope (whole node: p = -1, else per partition)."""
+    whole = p == -1 or node["np"] == 1          # a single-partition node's partition 0 is its whole output
+    while True:
+        bad = {b["n"] for b in run["rust_bad"][check] if b["f"] in kinds and (whole or b["p"] >= 0)}
+        kids = [c for c in children(run, node) if c["id"] in bad]
+        if not kids:
+            return node, whole
+        node = kids[0]
+        if whole and node["np"] > 1 and not any(b["n"] == node["id"] and b["p"] == -1 and b["f"] in kinds for b in run["rust_bad"][check]):
+            whole = False
+
+
 # ----------------------------------------------------------------------------- judging
 def judge(ctx, check, runs, meta, known_key=None, extra_violations=None, chunk=None):
     """Validate the recorded runs with TLC under the invariants of `check`, confirm every rejection with the
@@ -429,7 +460,11 @@ def judge(ctx, check, runs, meta, known_key=None, extra_violations=None, chunk=N
         if r["status"] in ("tool_err",):
             raise ToolError(f"recorder: {r['id']}: {r.get('err')}")
     ok = [r for r in runs if r["status"] == "ok"]
-    not_inert = [r for r in ok if not r["inert"] and not r["has_fetch"]]
+    # queries whose result is not a function of the input (ties under ROWS frames / ranking, LIMIT without a total
+    # order, order-dependent aggregates, float summation order) are exempt from the inertness comparison
+    nondet = re.compile(r" OVER |LIMIT|OFFSET|DISTINCT ON|array_agg|string_agg|first_value|avg\(|stddev|var_pop|corr\(|median|approx_", re.I)
+    differs = [r for r in ok if not r["inert"]]
+    not_inert = [r for r in differs if not r["has_fetch"] and not nondet.search(meta[r["id"]]["sql"])]
     inert_err = [r for r in runs if r["status"] == "inert_err"]
     if not_inert or inert_err:
         bad = (not_inert + inert_err)[0]
@@ -470,7 +505,8 @@ def judge(ctx, check, runs, meta, known_key=None, extra_violations=None, chunk=N
                 rust_only += 1
     if unconfirmed or rust_only:
         raise ToolError(f"specification and direct re-check disagree ({unconfirmed} TLC-only, {rust_only} Rust-only rejections)")
-    return {"status": dict(status), "runs_validated": len(ok), "nodes_judged": judged - sum(len(m[0]["nodes"]) for m in muts),
+    return {"status": dict(status), "runs_validated": len(ok), "inertness_compared": len(ok) - (len(differs) - len(not_inert)),
+            "nondeterministic_queries_with_different_result": len(differs) - len(not_inert), "nodes_judged": judged - sum(len(m[0]["nodes"]) for m in muts),
             "tlc_states": judged, "rejections_confirmed": confirmed,
             "selftest_corrupted_logs_rejected": len(muts), "selftest_kinds": mkinds}
 
